@@ -381,6 +381,23 @@ impl DocGen {
         if self.shape.chance(0.1) {
             return format!("#import {}", path);
         }
+        if self.shape.chance(0.3) {
+            // names from a small shared pool, duplicates allowed: statements in different documents
+            // (and calls) share names; a list that binds a name twice must not be reordered
+            const POOL: &[&str] = &["widget", "helper", "alpha", "beta", "util", "core", "zeta", "main", "io", "fmt"];
+            let n = self.shape.range(2, 6);
+            let mut items: Vec<String> = Vec::new();
+            for _ in 0..n {
+                let name = self.shape.pick(POOL).to_string();
+                if self.shape.chance(0.15) {
+                    let alias = self.shape.pick(POOL).to_string();
+                    items.push(format!("{} as {}", name, alias));
+                } else {
+                    items.push(name);
+                }
+            }
+            return format!("#import {}: {}", path, items.join(", "));
+        }
         let n = self.shape.range(2, 9);
         let mut items = Vec::new();
         let mut last_name: Option<String> = None;
@@ -473,6 +490,12 @@ impl DocGen {
             s.push_str(&format!("/ {}: {}\n", t, w));
         }
         s.trim_end().to_string()
+    }
+
+    /// a call that aborts on its own on the current tree (capacity overflow in the table layout):
+    /// an aborted call must not leave anything behind either
+    pub fn natural_abort(&mut self) -> String {
+        format!("#table(columns: 9223372036854775807, [{}])", self.word())
     }
 
     fn table(&mut self) -> String {
